@@ -144,15 +144,12 @@ pub fn c04_case(start: &Pos, moves: &[Move], use_startpos: bool, probes: &[u16],
         }
         // the `position` command itself (fresh from_fen + all moves + repetition table)
         if prefixes_to_probe.contains(&i) {
-            let (b, dt) = play_out(&position_command(start, &text[..i], use_startpos))?;
+            let (b, _dt) = play_out(&position_command(start, &text[..i], use_startpos))?;
             let d = same_board(&b, &txt_b);
             if !d.is_empty() {
                 return Err(format!("`position ... moves {}` from '{}' differs from applying the same moves one by one: {}", text[..i].join(" "), start.fen(), d.join(", ")));
             }
-            let total: u64 = dt.table.values().map(|&v| v as u64).sum();
-            if total != i as u64 + 1 {
-                return Err(format!("after `position` with {} moves the repetition table holds {} entries in total, expected {}", i, total, i + 1));
-            }
+            // (the repetition record filled by the same call is C10's subject, not judged here)
         }
         // (c) every generated successor, printed and replayed, reproduces itself
         let succ = catch(|| gen_all(&txt_b, z)).map_err(|e| format!("generate_moves panicked at '{}': {}", p.fen(), e))?;
